@@ -16,6 +16,13 @@ theorem constants_eq_generated :
     PV.Generated.C19.MIN_PACKET_SIZE = 4096 ∧ PV.Generated.C19.MAX_WINDOW_SIZE = 4294967295 := by
   decide
 
+/-- the clamp the model applies to the peer-advertised maximum packet size (`sanitizePkt` in `init`) is in the
+    source where the model has it: `_set_remote_channel` stores `_sanitize_packet_size(max_packet_size)`, which is
+    `clamp_value(MIN_PACKET_SIZE, max_packet_size, MAX_WINDOW_SIZE)` (facts read from the AST on every run) -/
+theorem clamp_is_in_the_source :
+    PV.Generated.C19.remote_max_packet_sanitised = true ∧ PV.Generated.C19.sanitise_is_clamp_min_max = true := by
+  decide
+
 private theorem winv_init (inWin peerWin peerMax nthr : Nat) (c : Bool) :
     WInv (init inWin peerWin peerMax nthr c) := by
   have : ∀ n, heldDataAll (List.replicate n (TSt.idle Res.none)) = 0 := by
@@ -43,15 +50,17 @@ private theorem ainv_init (inWin peerWin peerMax nthr : Nat) (c : Bool) :
 /-- **Window equation, every schedule.**  After any list of atomic regions executed by any number of
     threads (sends, sendalls, wake-ups, wire writes, reads, closes, peer messages in any order):
     bytes on the wire + bytes reserved by threads that have not written yet + remaining window
+    + bytes whose `_send_user_message` raised (a failed send returns NOTHING to the window — the reservation is
+    consumed or lost, never handed back larger than it was)
     = initial window + every WINDOW_ADJUST received. -/
 theorem window_equation (cfg : Cfg) (inWin peerWin peerMax nthr : Nat) (c : Bool) (sched : List Act) :
     let s := run cfg (init inWin peerWin peerMax nthr c) sched
-    dataSum s.wire + heldDataAll s.thr + s.outWin = peerWin + adjustsIn sched := by
+    dataSum s.wire + heldDataAll s.thr + s.outWin + s.leaked = peerWin + adjustsIn sched := by
   intro s
   have h := run_winv cfg _ sched (winv_init inWin peerWin peerMax nthr c)
   have g := run_granted cfg (init inWin peerWin peerMax nthr c) sched
   simp only [WInv] at h
-  show dataSum (run cfg _ sched).wire + _ + _ = _
+  show dataSum (run cfg _ sched).wire + _ + _ + _ = _
   rw [h, g]; rfl
 
 /-- **Clause 1.**  The data bytes sent (CHANNEL_DATA and CHANNEL_EXTENDED_DATA together) never exceed the
@@ -103,6 +112,34 @@ theorem adjust_le_recvd (cfg : Cfg) (inWin peerWin peerMax nthr : Nat) (c : Bool
 theorem invariants_inductive (cfg : Cfg) (s : St) (sched : List Act) (h : WInv s ∧ PktInv s ∧ AInv s) :
     WInv (run cfg s sched) ∧ PktInv (run cfg s sched) ∧ AInv (run cfg s sched) :=
   ⟨run_winv cfg s sched h.1, run_pkt cfg s sched h.2.1, run_ainv cfg s sched h.2.2⟩
+
+/-- a failed `_send_user_message` (SSHException while the transport stays alive): the call raises, nothing is
+    written, the reservation is not returned to the window, the remaining messages of that call are dropped -/
+theorem failed_send_returns_nothing (cfg : Cfg) (s : St) (t : Nat) (m : Msg) (ms : List Msg) (k : Kont)
+    (hr : s.thr[t]? = some (.hold (m :: ms) k)) :
+    (step cfg s (.emitFail t)).outWin = s.outWin ∧ (step cfg s (.emitFail t)).wire = s.wire ∧
+    (step cfg s (.emitFail t)).leaked = s.leaked + dataSum (m :: ms) ∧
+    (step cfg s (.emitFail t)).thr[t]? = some (.idle .sshError) := by
+  have hlt : t < s.thr.length := (List.getElem?_eq_some_iff.1 hr).1
+  simp only [step, hr]
+  exact ⟨rfl, rfl, rfl, by simp [setThr, hlt]⟩
+
+/-- the window limit on a message is positive in every reachable state: `out_max_packet_size` is what
+    `_set_remote_channel` got from `_sanitize_packet_size`, at least 4096 whatever the peer advertised -/
+theorem max_packet_clamped (cfg : Cfg) (inWin peerWin peerMax nthr : Nat) (c : Bool) (sched : List Act) :
+    4096 ≤ (run cfg (init inWin peerWin peerMax nthr c) sched).maxPkt ∧
+    (run cfg (init inWin peerWin peerMax nthr c) sched).maxPkt = sanitizePkt peerMax := by
+  rw [run_maxPkt]
+  exact ⟨sanitizePkt_ge peerMax, rfl⟩
+
+/-- non-vacuity: a send of 6000 bytes is cut to 4032 by the packet limit, its write FAILS, a later send gets
+    only what is left of the window (968), not the 6000 that were asked for -/
+example :
+    let s := run fixedCfg (init 32768 5000 4096 2 false)
+      [.send 0 6000 false, .emitFail 0, .send 1 6000 true, .emit 1, .send 0 10 false]
+    s.wire = [.ext 968] ∧ s.outWin = 0 ∧ s.leaked = 4032 ∧ s.granted = 5000 ∧
+    s.thr = [.waiting 10 false none none, .idle (.ret 968)] := by
+  decide +kernel
 
 /-- non-vacuity: two writer threads race for a 5000-byte window with a 4096-byte packet limit; a third
     thread reads and acknowledges.  The schedule interleaves reservations, a window adjustment and the
